@@ -46,10 +46,10 @@ def frame(p, upto):
             % (p, p, upto, p, p))
 
 
-def make_cvector(pfx, T):
+def make_cvector(pfx, T, extra=False):
     """Fn list for one instantiation of cvector<T,N>; names are <pfx>_<method>."""
     V = 'struct %s' % pfx
-    R = [MEMBERS, Subscript()]
+    R = [MEMBERS, Subscript(), S(r'(?<![\w.>])N\b', 'self->N', min=0, name='R9:N')]
     fns = []
 
     def one(method, header, csig, contract, rules=R, loops=None, harness_args='', harness_pre='', **kw):
@@ -72,11 +72,31 @@ def make_cvector(pfx, T):
         '__CPROVER_ensures(self->current_size == __CPROVER_old(self->current_size) + 1 && self->current_size <= self->N && self->the_data[self->current_size - 1] == v)\n'
         '__CPROVER_ensures(self->current_size >= 1 && %s)' % (wf('self'), frame('self', 'self->current_size - 1')),
         harness_args=', v', harness_pre='%s v;' % T, between_ok=r'\s*')
-    one('emplace_back', r'constexpr\s+void\s+emplace_back\(T&&\s*v\)', 'void %s_emplace_back(%s* self, %s v)' % (pfx, V, T),
-        '__CPROVER_requires(%s && self->current_size < self->N)\n__CPROVER_assigns(*self)\n'
-        '__CPROVER_ensures(self->current_size == __CPROVER_old(self->current_size) + 1 && self->current_size <= self->N && self->the_data[self->current_size - 1] == v)\n'
-        '__CPROVER_ensures(self->current_size >= 1 && %s)' % (wf('self'), frame('self', 'self->current_size - 1')),
-        harness_args=', v', harness_pre='%s v;' % T, between_ok=r'\s*')
+    if extra:
+        one('emplace_back', r'constexpr\s+void\s+emplace_back\(T&&\s*v\)', 'void %s_emplace_back(%s* self, %s v)' % (pfx, V, T),
+            '__CPROVER_requires(%s && self->current_size < self->N && vx_moved_n < 1000)\n__CPROVER_assigns(*self, vx_moved_n)\n'
+            '/* C14: the pushed value is move-assigned into the slot (R20: std::move(v) vs. the bare name v, which would copy) */\n__CPROVER_ensures(vx_moved_n == __CPROVER_old(vx_moved_n) + 1)\n'
+            '__CPROVER_ensures(self->current_size == __CPROVER_old(self->current_size) + 1 && self->current_size <= self->N && self->the_data[self->current_size - 1] == v)\n'
+            '__CPROVER_ensures(self->current_size >= 1 && %s)' % (wf('self'), frame('self', 'self->current_size - 1')),
+            rules=[S(r'=\s*std::move\(v\)', '= VX_MOVED(v)', min=0, name='R20:std::move(v) keeps the rvalue category')] + R,
+            harness_args=', v', harness_pre='%s v; vx_moved_n = 0;' % T, between_ok=r'\s*')
+    else:
+        one('emplace_back', r'constexpr\s+void\s+emplace_back\(T&&\s*v\)', 'void %s_emplace_back(%s* self, %s v)' % (pfx, V, T),
+            '__CPROVER_requires(%s && self->current_size < self->N)\n__CPROVER_assigns(*self)\n'
+            '__CPROVER_ensures(self->current_size == __CPROVER_old(self->current_size) + 1 && self->current_size <= self->N && self->the_data[self->current_size - 1] == v)\n'
+            '__CPROVER_ensures(self->current_size >= 1 && %s)' % (wf('self'), frame('self', 'self->current_size - 1')),
+            harness_args=', v', harness_pre='%s v;' % T, between_ok=r'\s*')
+    # C12, second half: at compile time a push beyond the capacity is what refuses a too-small table (the evaluation is not a constant
+    # expression); in this variant the woven bound check ends the path (like a throw, R11) instead of being an obligation, and the
+    # contract is total: the function returns only if there was room
+    for meth, hdr in () if not extra else (('push_back', r'constexpr\s+void\s+push_back\(const T&\s*v\)'), ('emplace_back', r'constexpr\s+void\s+emplace_back\(T&&\s*v\)')):
+        name = '%s_%s_total' % (pfx, meth)
+        fns.append(Fn(name=name, scope=CV_SCOPE, header=hdr, csig='void %s(%s* self, %s v)' % (name, V, T),
+                      contract='__CPROVER_requires(%s && vx_rejected == 0 && vx_moved_n < 1000)\n__CPROVER_assigns(*self, vx_rejected, vx_moved_n)\n'
+                               '/* returns normally only when there was room, and then the value is in */\n'
+                               '__CPROVER_ensures(__CPROVER_old(self->current_size) < self->N && self->current_size == __CPROVER_old(self->current_size) + 1 && self->the_data[self->current_size - 1] == v && vx_rejected == 0)' % wf('self'),
+                      rules=[S(r'=\s*std::move\(v\)', '= VX_MOVED(v)', min=0, name='R20:std::move(v)')] + R + [S(r'vx_idx\(', 'vx_idx_ce(', min=1, name='R9:bound check in constant evaluation: out of range ends the evaluation')],
+                      harness='void h_%s(void) { %s x; %s v; vx_rejected = 0; %s(&x, v); }' % (name, V, T, name), props=['C12'], between_ok=r'\s*'))
     one('front', r'constexpr\s+T&\s+front\(\)', '%s* %s_front(%s* self)' % (T, pfx, V),
         '__CPROVER_requires(%s && self->current_size >= 1)\n__CPROVER_assigns()\n__CPROVER_ensures(__CPROVER_return_value == &self->the_data[0])' % wf('self'),
         rules=[S(r'return\s+the_data\[0\]', 'return &the_data[0]')] + R, between_ok=r'\s*')
@@ -110,11 +130,16 @@ def cvector_struct(pfx, T):
     return 'struct %s { size_t current_size; size_t N; /* ghost: template parameter N */ %s the_data[VX_CAP]; };\n' % (pfx, T)
 
 
+CV_GHOST = r'''int vx_rejected;      /* ghost: the constant evaluation was ended by an out-of-range subscript */
+static inline size_t vx_idx_ce(size_t i, size_t n) { if (!(i < n)) { vx_rejected = 1; __CPROVER_assume(0); } return i; }
+unsigned vx_moved_n;  /* ghost (R20): number of move-assignments */
+#define VX_MOVED(x) (vx_moved_n++, (x))
+'''
 PRELUDE = r'''
 int vx_thrown;
 #define VX_CAP %d
 static inline size_t vx_idx(size_t i, size_t n) { __CPROVER_assert(i < n, "VX_BOUND subscript within logical capacity N"); return i; }
-''' % CAP
+''' % CAP + CV_GHOST
 
 # R8 (iterators are element offsets) rests on the one-line bodies of iterator_base / iterator / begin / end: under contract in unit cvec_iter
 FACTS = []
@@ -226,7 +251,7 @@ CB_FACTS = [r'static const size_type underlying_size = sizeof\(underlying_type\)
             r'underlying_type data\[underlying_count\] = \{\};', r'using underlying_type = std::uint64_t;']
 
 UNIT = Unit('stdex', PRELUDE + cvector_struct('cvecv', 'uint32_t') + cvector_struct('cvec16', 'size16_t') + cbitset_struct(),
-            make_cvector('cvecv', 'uint32_t') + make_cvector('cvec16', 'size16_t') + make_cbitset(extra=True))
+            make_cvector('cvecv', 'uint32_t', extra=True) + make_cvector('cvec16', 'size16_t', extra=True) + make_cbitset(extra=True))
 UNIT.facts = FACTS + CB_FACTS
 
 
@@ -265,11 +290,13 @@ def _twin_cvector(method, T):
         data = [_N.to_int(v.get('x.the_data[%dl]' % k), 0) for k in range(16)]
         a = _N.to_int(v.get('a'), 0); b = _N.to_int(v.get('b'), 0); val = _N.to_int(v.get('v'), 7)
         body = {'push_back': 'c.push_back((T)%d); ok = c.size() == n0 + 1 && c[n0] == (T)%d;' % (val, val),
-                'emplace_back': 'c.emplace_back((T)%d); ok = c.size() == n0 + 1 && c[n0] == (T)%d;' % (val, val),
+                'emplace_back': 'c.emplace_back((T)%d); ok = c.size() == n0 + 1 && c[n0] == (T)%d; { stdex::cvector<Tr, 4> t; t.emplace_back(Tr{}); if (tr_copies) { ok = false; std::printf("emplace_back copied the value %%d time(s) instead of moving it\\n", tr_copies); } }' % (val, val),
                 'pop_back': 'c.pop_back(); ok = c.size() == n0 - 1;',
                 'erase': 'c.erase(c.end() - (n0 - %d), c.end()); ok = c.size() == (size_t)%d;' % (a, a)}[method]
         return _N.TWIN_HEAD + """
 typedef %s T;
+static int tr_copies = 0;    // a trivially destructible value type that counts its copies
+struct Tr { int v = 0; Tr() = default; Tr(Tr&&) = default; Tr& operator=(Tr&&) = default; Tr(const Tr& o) : v(o.v) { ++tr_copies; } Tr& operator=(const Tr& o) { v = o.v; ++tr_copies; return *this; } };
 int main() {
     stdex::cvector<T, 16> c; T init[16] = { %s }; size_t n0 = %d;
     for (size_t k = 0; k < n0; ++k) c.push_back(init[k]);
